@@ -48,6 +48,15 @@ class World:
             node = node.map(lambda x: x)
         elif shape == "filter_map":
             node = node.filter(lambda x: True).map(lambda x: x)
+        if shape == "forward":
+            # two sinks that forward into other streams (each with its loop): nested emits on the loop thread, inside the outer
+            # blocking emit -- they hand back awaitables, the outer emit waits for them
+            self.side = Stream(asynchronous=False)
+            self.side_sink = self.side.sink(lambda x: None)
+            self.inner = Stream(asynchronous=False)
+            self.fw1 = node.sink(self.side.emit)
+            self.fw2 = node.sink(self.inner.emit)
+            node = self.inner
         self.cons = Consumer(node)
         self.loop = self.src.loop
 
@@ -219,6 +228,13 @@ def main():
         for np_ in (2, 3):
             for s in scripts(np_, 2, rng, n // 2 if shape != "direct" else n):
                 runs.append(run(shape, np_, 2, s))
+    # nested emits (forwarding sinks) inside the outer blocking emit; last, because a deadlocked loop thread takes the shared
+    # background loop with it: stop at the first emit that never returns
+    for s in scripts(2, 2, rng, 10 if a.tier == "quick" else 60):
+        r = run("forward", 2, 2, s)
+        runs.append(r)
+        if any(e["ev"] == "Stuck" for e in r["ev"]):
+            break
     for i, r in enumerate(runs, start=1):
         r["id"] = i
     os.makedirs(a.out, exist_ok=True)
